@@ -32,9 +32,14 @@ def main():
     dst = os.path.join(VERIF, "seeded", name)
     os.makedirs(dst, exist_ok=True)
     demo = None
+    if not os.path.isdir(src):
+        # the agent's worktree is gone: work from the kept copy
+        for f in sorted(os.listdir(dst)):
+            if f.startswith("demo"):
+                demo = demo or f
     for f in ["patch.diff", "NOTES.md"] + [os.path.basename(x) for x in glob.glob(src + "/demo*") + glob.glob(src + "/*.c") + glob.glob(src + "/*.py") + glob.glob(src + "/*.sh")]:
         p = os.path.join(src, f)
-        if os.path.isfile(p) and os.path.getsize(p) < 200000:
+        if os.path.isdir(src) and os.path.isfile(p) and os.path.getsize(p) < 200000:
             shutil.copy(p, os.path.join(dst, f))
             if f.startswith("demo"):
                 demo = demo or f
